@@ -594,6 +594,57 @@ def rule_locations_carried(ctx, R="C04.15"):
     ctx.check(R, "locations-carried/no-computed-location", True, "%d label locations and %d location fields are names, fields or getters" % (n_lab, n_fld))
 
 
+def rule_less_than_anchor(ctx, R="C04.16"):
+    """The `LessThan` finding by evaluation of its report builder: the value compared occurs twice, first as the input
+    of a range check and then as the input of the comparison; the primary label must lie on the comparison's input
+    (what the message is about), the secondary labels on the range checks."""
+    ctx.rule(R, "the `inputs to LessThan` finding is anchored at the input of the comparison, also when the same value was first seen as the input of a range check; the range checks are secondary labels")
+    import passeval
+    from finfun import S, Unsupported
+    from passeval import O, Panic, Sink
+
+    LTF = "program_analysis/src/unconstrained_less_than.rs"
+    try:
+        w = passeval.PassWorld([LTF], LTF)
+    except Exception as e:  # noqa: BLE001
+        return ctx.missing(R, "less-than evaluator", str(e))
+    fn = w.free.get("build_report")
+    if fn is None or "ConstraintData" not in w.structs:
+        return ctx.missing(R, "unconstrained_less_than::build_report")
+    w.lenient_opaque = True
+
+    def meta(tag):
+        me = []
+        me.append(("O", "meta@" + tag, (("file_id", S("Some", O("file-id"))), ("file_location", O("location@" + tag)), ("clone", ("PY", lambda: me[0])))))
+        return me[0]
+
+    m_first, m_lt, m_lt2, m_nb = meta("range-check-input"), meta("comparison-input"), meta("second-comparison-input"), meta("range-check")
+    vh = []
+    vh.append(("O", "value", (("meta", m_first), ("clone", ("PY", lambda: vh[0])))))
+    lt, nb, bs = Sink(), Sink(), Sink()
+    lt.items, nb.items, bs.items = [m_lt, m_lt2], [m_nb], [("O", "size", (("clone", ("PY", lambda: O("size"))),))]
+    data = S("ConstraintData", *[{"less_than": lt, "num_2_bits": nb, "bit_sizes": bs}.get(f_, Sink()) for f_ in w.structs["ConstraintData"]])
+    labels = []
+
+    def new_report(name, args):
+        if name not in ("error", "warning", "info"):
+            return ("K", "Report::" + name, tuple(args))
+        return ("O", "report", (("add_primary", ("PY", lambda *a: labels.append(("primary",) + a))), ("add_secondary", ("PY", lambda *a: labels.append(("secondary",) + a))), ("add_note", ("PY", lambda *a: None))))
+
+    w.opaque = (("Report::", new_report),)
+    try:
+        w.call_fn(fn, [vh[0], data])
+    except Unsupported as u:
+        return ctx.missing(R, "unconstrained_less_than::build_report/evaluation", str(u))
+    except Panic as p_:
+        return ctx.bad(R, "UnconstrainedLessThanWarning/primary-label-at-the-comparison-input", "panics (%s)" % p_, site(LTF, fn))
+    prim = [l_ for l_ in labels if l_[0] == "primary"]
+    sec = [l_ for l_ in labels if l_[0] == "secondary"]
+    where = prim[0][1][1] if prim and isinstance(prim[0][1], tuple) else None
+    ctx.check(R, "UnconstrainedLessThanWarning/primary-label-at-the-comparison-input", len(prim) == 1 and where == "location@comparison-input", "the primary label lies at %s" % (where or "no location"), site(LTF, fn))
+    ctx.check(R, "UnconstrainedLessThanWarning/range-checks-are-secondary-labels", len(sec) == 1 and isinstance(sec[0][1], tuple) and sec[0][1][1] == "location@range-check", "secondary labels at %s" % [l_[1][1] if isinstance(l_[1], tuple) else l_[1] for l_ in sec], site(LTF, fn))
+
+
 def rule_file_table(ctx):
     R = "C04.11"
     ctx.rule(R, "there is one file table: only FileLibrary creates or extends a codespan SimpleFiles, only the parser adds files to the library, and the terminal writer resolves labels against the storage of the library it was given (so a label's file id means the same file for every consumer)")
@@ -645,6 +696,7 @@ def run(ctx):
     rule_labels_untouched(ctx)
     rule_declaration_lookup(ctx)
     rule_locations_carried(ctx)
+    rule_less_than_anchor(ctx)
     ctx.rule("C04.10", "Report::add_primary / add_secondary attach exactly the byte range and file id they are given (no widening, shifting or re-anchoring)")
     c03.rule_label_passthrough(ctx, "C04.10")
     ctx.include("C04.1", "the comment stripper is equivalent to the reference lexer for all strings - in particular every byte of the input corresponds to exactly one byte of the output (shared with C05.1)", lambda c: c05.run(c), only=["preprocess/"])
